@@ -84,6 +84,42 @@ class TypeAdded(SchemaChange):
         self.type_name = type_name
 
 
+class RootTypeChanged(SchemaChange):
+    severity = SchemaChangeSeverity.BREAKING
+    format_str = (
+        "Root {self.operation} type changed from "
+        "{self.old_type_name} to {self.new_type_name}."
+    )
+
+    def __init__(
+        self, operation: str, old_type_name: str, new_type_name: str
+    ):
+        self.operation = operation
+        self.old_type_name = old_type_name
+        self.new_type_name = new_type_name
+
+
+class RootTypeRemoved(SchemaChange):
+    severity = SchemaChangeSeverity.BREAKING
+    format_str = (
+        "Root {self.operation} type {self.type_name} was removed "
+        "({self.operation} operations are no longer supported)."
+    )
+
+    def __init__(self, operation: str, type_name: str):
+        self.operation = operation
+        self.type_name = type_name
+
+
+class RootTypeAdded(SchemaChange):
+    severity = SchemaChangeSeverity.COMPATIBLE
+    format_str = "Root {self.operation} type {self.type_name} was added."
+
+    def __init__(self, operation: str, type_name: str):
+        self.operation = operation
+        self.type_name = type_name
+
+
 class TypeRemovedFromUnion(SchemaChange):
     severity = SchemaChangeSeverity.BREAKING
     format_str = (
